@@ -158,7 +158,7 @@ PROPS.append(('C01', """(* C01 - a corpus document embedded verbatim in a file i
    a sequence against itself is one Equal).  V2/PlantedText.v lifts the setting
    from token lists to TEXT: the tokenizer is compositional at settled line
    boundaries, so a copy of the document's text between other text has exactly
-   the document's words, on the document's lines shifted by the newlines before it. *)""", IMP_V2 + "\nFrom LC.V2 Require Import Planted TokSim TokInv PlantedText FilterProof.", [
+   the document's words, on the document's lines shifted by the newlines before it. *)""", IMP_V2 + "\nFrom LC.V2 Require Import Planted TokSim TokInv PlantedText FilterProof FilterKeep.", [
  ('C01_text_level', 'C01_text_reported', 'V2/PlantedText.v',
   'THE PROPERTY at the level of the file\'s text: pre ++ docu ++ post with pre and docu ending at settled line boundaries (newline-terminated lines none of which ends in a pending hyphen): the copy is reported with confidence 1.0, token span exactly the copy, lines = the lines of its first and last word, names of the document - under the isolation hypothesis of the token-level theorem and the diff contract'),
  ('C01_tokenizer_compositional', 'tokenize_lines_app', 'V2/PlantedText.v',
@@ -179,6 +179,14 @@ PROPS.append(('C01', """(* C01 - a corpus document embedded verbatim in a file i
   'no two reported matches block or evict each other'),
  ('C01_filter_idempotent', 'filter_idempotent', 'V2/FilterProof.v',
   'filtering the result again changes nothing'),
+ ('C01_candidate_survives', 'survives', 'V2/FilterKeep.v',
+  'a candidate that no retained earlier candidate blocks and no later candidate evicts is in the result, for every candidate list'),
+ ('C01_survives_beside_or_on_last_line', 'survives_last_line', 'V2/FilterKeep.v',
+  'in particular when every retained earlier match is line-disjoint from it or is a multi-line match on whose LAST line it starts (the StartLine == EndLine exception; seeded change C01-m6 removes it)'),
+ ('C01_last_line_not_blocked', 'last_line_not_blocked', 'V2/FilterKeep.v',
+  'the exception itself: a candidate starting on the last line of a multi-line retained match is not rejected by it'),
+ ('C01_two_copies_on_one_line', 'one_line_pair_filter', 'V2/FilterKeep.v',
+  'the recorded known finding, pinned down: two matches lying wholly on the same single line contain each other, and the one with the smaller token-weighted confidence is dropped in either order'),
  ('C01_filter_keeps', 'filter_keeps', 'V2/Planted.v', 'the exact condition under which the overlap/containment filter keeps a candidate'),
  ('C01_isolation_is_needed', 'ex_C01_needs_isolation', 'V2/Planted.v', 'two different documents planted on the SAME line: only one is reported - the separation by unrelated text on its own lines in the property is essential', 'typeof'),
 ], ''))
